@@ -173,4 +173,19 @@ theorem leeLaw_pos (pi a q wn : ℝ) (hpi : 0 < pi) (ha : 0 < a) (hq : 0 ≤ q) 
   have : 0 < a * (1 / 1000000) := by positivity
   positivity
 
+/-! ### a contribution declared in an input file (`declaredArgs`) -/
+
+theorem lookup_map_declared {β : Type} (config : List (String × β)) (k : String) :
+    ∀ (defaults : List (String × β)) (d : β), defaults.lookup k = some d →
+      (defaults.map (fun kd => (kd.1, (config.lookup kd.1).getD kd.2))).lookup k = some ((config.lookup k).getD d)
+  | [], d, h => by simp at h
+  | (k', d') :: tl, d, h => by
+    by_cases hk : k = k'
+    · subst hk
+      simp [List.lookup] at h ⊢
+      rw [h]
+    · have hb : (k == k') = false := by simpa using hk
+      simp only [List.map, List.lookup, hb] at h ⊢
+      exact lookup_map_declared config k tl d h
+
 end Taurex.Haze
